@@ -1446,7 +1446,8 @@ class PolyhedralTermList(TermList):  # noqa: WPS338
         slack = res["slack"]
         indices = np.where(np.isclose(slack, 0))[0]
 
-        assert len(indices) >= num_vars_to_elim
+        if len(indices) < num_vars_to_elim:
+            raise ValueError("Context has insufficient information")
         terms_added = 0
         for index in indices:
             context_term = context.terms[index]
